@@ -3,6 +3,7 @@ package syncx_test
 import (
 	"fmt"
 	"io"
+	"strings"
 	"sync"
 	"sync/atomic"
 	"testing"
@@ -39,15 +40,52 @@ func c18FlightFn(clk *c18Clock, log *c18Log, nexec *atomic.Int64, inside []atomi
 		if inside != nil {
 			inside[op.Key].Add(-1)
 		}
-		log.exec(c18Exec{ID: id, Key: op.Key, G: g, I: i, Start: st, End: en, Fail: op.A == 1, Pan: op.A == 2})
+		// the result is built before the execution is logged, so that the log
+		// holds exactly what was returned
+		var val interface{}
+		var err error
+		noID := false
+		if op.A == 1 {
+			kind := op.E
+			if kind < c18ErrKindsCount {
+				kind = c18FailKind(kind)
+			}
+			err, noID = c18MakeErr(kind, id), c18ErrNoID(kind)
+		}
+		vk := op.V
+		if (vk == 6 || vk == 7) && (op.A != 1 || noID) {
+			vk = 0 // a pair that carries no id at all could not be attributed
+		}
+		val = c18MakeVal(vk, id)
+		log.exec(c18Exec{ID: id, Key: op.Key, G: g, I: i, Start: st, End: en, Fail: op.A == 1, Pan: op.A == 2, NoID: noID, Sig: c18Sig(val, err)})
 		if op.A == 2 {
 			panic(c18PanicValue(op, "flight callback"))
 		}
-		if op.A == 1 {
-			return id, c18MakeErr(c18FailKind(op.E), id)
-		}
-		return id, nil
+		return val, err
 	}
+}
+
+// c18ErrKindName labels the error half of a signature (type|message) without
+// its id.
+func c18ErrKindName(errSig string) string {
+	typ := strings.SplitN(errSig, "|", 2)[0]
+	switch {
+	case strings.Contains(errSig, "typed nil"):
+		return "typed-nil"
+	case strings.Contains(errSig, "dial: context deadline exceeded"):
+		return "double-wrapped-context.DeadlineExceeded"
+	case strings.Contains(errSig, "gave up: context canceled"):
+		return "wrapped-context.Canceled"
+	case strings.Contains(errSig, "gave up: context deadline exceeded"):
+		return "wrapped-context.DeadlineExceeded"
+	case strings.HasSuffix(errSig, "|context canceled"):
+		return "context.Canceled"
+	case strings.HasSuffix(errSig, "|context deadline exceeded"):
+		return "context.DeadlineExceeded"
+	case strings.HasSuffix(errSig, "|EOF"):
+		return "io.EOF"
+	}
+	return typ
 }
 
 func c18NotePanic(ev *c18Ev, panicked bool, foreign interface{}) {
@@ -66,9 +104,18 @@ func c18FailKind(k int) int {
 	return k
 }
 
-func c18ValTag(val interface{}) int {
-	if id, ok := val.(int); ok {
+// c18ValTag: the execution a returned pair belongs to, read from the value
+// or, for the value kinds that carry nothing (nil, typed nil pointer), from
+// the error; -1 if neither tells. Whether the pair is intact is decided by
+// comparing signatures (c18Sig), not tags.
+func c18ValTag(val interface{}, err error) int {
+	if id := c18ValID(val); id != -1 {
 		return id
+	}
+	if p, ok := val.(*c18ValStruct); val == nil || (ok && p == nil) {
+		if id := c18ErrTag(err); id > 0 {
+			return id
+		}
 	}
 	return -1
 }
@@ -105,11 +152,22 @@ func c18FlightInterp(t *testing.T, c c18Case) kit.Verdict {
 			})
 			ev.Ret = clk.now()
 			c18NotePanic(&ev, pan, foreign)
-			ev.Val, ev.Err = c18ValTag(val), c18ErrTag(err)
+			ev.Val, ev.Err = c18ValTag(val, err), c18ErrTag(err)
+			if !pan {
+				ev.Sig = c18Sig(val, err)
+			}
 			log.ev(ev)
 		}
 		return do, nil
 	})
+	for _, e := range log.execs {
+		if i := strings.Index(e.Sig, " || "); i >= 0 && !e.Pan {
+			v.class("result-value:" + strings.SplitN(e.Sig[:i], "|", 2)[0])
+			if e.Fail {
+				v.class("result-error:" + c18ErrKindName(e.Sig[i+4:]))
+			}
+		}
+	}
 	if overlap.Load() != 0 {
 		v.failf("single-flight: two executions of one key were inside their callbacks at the same time (overlap counter)")
 	}
@@ -171,9 +229,15 @@ func c18JudgeFlight(v *c18V, log *c18Log, what string, checkFresh bool) {
 			wantErr := 0
 			if ev.Op.A == 1 {
 				wantErr = ev.Exec
+				if execByID[ev.Exec].NoID {
+					wantErr = -1
+				}
 			}
 			if ev.Val != ev.Exec || ev.Err != wantErr {
 				v.failf("%s executed its callback (execution %d) but returned value tag %d / error tag %d", name, ev.Exec, ev.Val, ev.Err)
+			}
+			if ev.Sig != execByID[ev.Exec].Sig {
+				v.failf("%s executed its callback (execution %d), which returned [%s], but the call returned [%s]", name, ev.Exec, execByID[ev.Exec].Sig, ev.Sig)
 			}
 			if checkFresh && ev.Op.K == "doex" && !ev.Fresh {
 				v.failf("%s executed its callback but DoEx reported fresh=false", name)
@@ -220,10 +284,16 @@ func c18JudgeFlight(v *c18V, log *c18Log, what string, checkFresh bool) {
 		wantErr := 0
 		if e.Fail {
 			wantErr = e.ID
+			if e.NoID {
+				wantErr = -1
+			}
 			v.class("shared-error")
 		}
 		if ev.Err != wantErr {
 			v.failf("%s shares execution %d but got error tag %d, execution returned %d (value/error pair torn)", name, e.ID, ev.Err, wantErr)
+		}
+		if ev.Sig != e.Sig {
+			v.failf("%s shares execution %d, which returned [%s], but received [%s]: all calls served by one execution receive its result", name, e.ID, e.Sig, ev.Sig)
 		}
 		if ev.Ret.S < e.End.S {
 			v.failf("%s returned the result of execution %d before that execution's callback ended", name, e.ID)
@@ -284,9 +354,12 @@ func c18JudgeFlight(v *c18V, log *c18Log, what string, checkFresh bool) {
 func c18FlightGen(rt *rapid.T) c18Case {
 	c := c18Case{Gs: c18GenGs(rt, 4, func(rt *rapid.T, burst bool) c18Op {
 		op := c18Op{K: rapid.SampledFrom([]string{"do", "do", "doex"}).Draw(rt, "k"), Key: c18Key(rt), H: c18Hold(rt)}
-		op.A = c18Outcome(rt)
+		op.A = rapid.SampledFrom([]int{0, 0, 0, 0, 0, 1, 1, 1, 1, 2}).Draw(rt, "outcome")
 		if op.A == 1 {
-			op.E = c18ErrKind(rt, false)
+			op.E = c18FlightErrKind(rt)
+		}
+		if rapid.Bool().Draw(rt, "otherValueKind") {
+			op.V = rapid.IntRange(1, c18ValKinds-1).Draw(rt, "valueKind")
 		}
 		if rapid.IntRange(0, 5).Draw(rt, "reentrant") == 0 {
 			op.R = 1
@@ -333,7 +406,7 @@ func c18LockedInterp(t *testing.T, c c18Case) kit.Verdict {
 			pan, foreign := c18Try(func() { val, err = lc.Do(name, fn) })
 			ev.Ret = clk.now()
 			c18NotePanic(&ev, pan, foreign)
-			ev.Val, ev.Err = c18ValTag(val), c18ErrTag(err)
+			ev.Val, ev.Err = c18ValTag(val, err), c18ErrTag(err)
 			log.ev(ev)
 		}
 		return do, nil
@@ -527,6 +600,9 @@ func c18ManagerInterp(t *testing.T, c c18Case) kit.Verdict {
 						panic(c18PanicValue(op, "resource creator"))
 					}
 					if op.A == 1 {
+						if op.E >= c18ErrKindsCount {
+							return nil, c18MakeErr(op.E, id)
+						}
 						return nil, c18MakeErr(c18FailKind(op.E), id)
 					}
 					cl := &c18Closer{id: id, key: op.Key, ek: op.E}
@@ -777,6 +853,11 @@ func c18ManagerGen(rt *rapid.T) c18Case {
 			if rapid.IntRange(0, 2).Draw(rt, "otherKind") == 0 {
 				op.E = c18ErrKind(rt, true)
 			}
+		}
+		if op.A == 1 && rapid.IntRange(0, 2).Draw(rt, "fetchError") == 0 {
+			// a creator that gave up on its own context, or failed with a custom
+			// type (all of these carry the execution id)
+			op.E = rapid.SampledFrom([]int{c18ErrWrapCanceled, c18ErrWrapDeadline, c18ErrPtr, c18ErrIsCanceled, c18ErrNetTimeout, c18ErrDoubleWrap}).Draw(rt, "fetchErrKind")
 		}
 		if rapid.IntRange(0, 5).Draw(rt, "reentrant") == 0 {
 			op.R = 1
